@@ -126,6 +126,99 @@ def register(eng):
     def _(eng, a, c):
         return Agg("CborWrap", None, 0, [a[0]])
 
+    # ---- addresses (pallas_addresses): structure from the header byte, payload bytes kept
+    def mk_address(eng, bs, c):
+        """Address::from_bytes contract on concrete-length bytes with a concrete header"""
+        bs = list(bs)
+        if not bs or not isinstance(bs[0], int):
+            raise Unmodelled("address with symbolic / missing header byte")
+        ty = bs[0] >> 4
+        if ty in (0, 1, 2, 3, 4, 5, 6, 7):
+            need = {0: 57, 1: 57, 2: 57, 3: 57, 6: 29, 7: 29}.get(ty)
+            if need is not None and len(bs) != need:
+                return err(Opaque("address_error"))
+            return ok(eng.mk_variant("Address", "Shelley", [Agg("ShelleyAddress", None, 0, [VecM(bs)])]))
+        if ty in (14, 15):
+            if len(bs) != 29:
+                return err(Opaque("address_error"))
+            return ok(eng.mk_variant("Address", "Stake", [Agg("StakeAddress", None, 0, [VecM(bs)])]))
+        if ty == 8:
+            return ok(eng.mk_variant("Address", "Byron", [Agg("ByronAddress", None, 0, [VecM(bs)])]))
+        return err(Opaque("address_error"))
+
+    @model("Address::from_bytes")
+    def _(eng, a, c):
+        return mk_address(eng, deref(a[0]).items, c)
+
+    @model("Address::to_vec", "StakeAddress::to_vec", "ShelleyAddress::to_vec", "ByronAddress::to_vec")
+    def _(eng, a, c):
+        x = deref(a[0])
+        if x.ty == "Address":
+            x = deref(x.fields[0])
+        return VecM(list(x.fields[0].items))
+
+    @model("From::from@Address", "Into::into@ShelleyAddress", "Into::into@StakeAddress")
+    def _(eng, a, c):
+        x = deref(a[0])
+        if x.ty == "ShelleyAddress":
+            return eng.mk_variant("Address", "Shelley", [x])
+        if x.ty == "StakeAddress":
+            return eng.mk_variant("Address", "Stake", [x])
+        raise Unmodelled("address conversion " + c)
+
+    @model("ShelleyAddress::new")
+    def _(eng, a, c):
+        net, pay, deleg = deref(a[0]), deref(a[1]), deref(a[2])
+        # header: type nibble from payment/delegation kinds, network nibble
+        kind = {("Key", "Key"): 0, ("Script", "Key"): 1, ("Key", "Script"): 2, ("Script", "Script"): 3,
+                ("Key", "Pointer"): 4, ("Script", "Pointer"): 5, ("Key", "Null"): 6, ("Script", "Null"): 7}[(pay.variant, deleg.variant)]
+        netbits = 1 if net.variant == "Mainnet" else 0
+        bs = [(kind << 4) | netbits] + list(deref(deref(pay.fields[0]).fields[0]).items)
+        if deleg.variant in ("Key", "Script"):
+            bs += list(deref(deref(deleg.fields[0]).fields[0]).items)
+        return Agg("ShelleyAddress", None, 0, [VecM(bs)])
+
+    @model("ShelleyAddress::payment")
+    def _(eng, a, c):
+        x = deref(a[0]); bs = x.fields[0].items
+        h = Agg("Hash", None, 0, [VecM(bs[1:29], "array")])
+        v = "Script" if (bs[0] >> 4) & 1 else "Key"
+        return ref_to_value(eng.mk_variant("ShelleyPaymentPart", v, [h]))
+
+    @model("ShelleyAddress::delegation")
+    def _(eng, a, c):
+        x = deref(a[0]); bs = x.fields[0].items
+        ty = bs[0] >> 4
+        if ty in (0, 1):
+            return ref_to_value(eng.mk_variant("ShelleyDelegationPart", "Key", [Agg("Hash", None, 0, [VecM(bs[29:57], "array")])]))
+        if ty in (2, 3):
+            return ref_to_value(eng.mk_variant("ShelleyDelegationPart", "Script", [Agg("Hash", None, 0, [VecM(bs[29:57], "array")])]))
+        if ty in (4, 5):
+            return ref_to_value(eng.mk_variant("ShelleyDelegationPart", "Pointer", [Opaque("pointer")]))
+        return ref_to_value(eng.mk_variant("ShelleyDelegationPart", "Null", []))
+
+    @model("ShelleyDelegationPart::to_vec")
+    def _(eng, a, c):
+        x = deref(a[0])
+        if x.variant in ("Key", "Script"):
+            return VecM(list(deref(deref(x.fields[0]).fields[0]).items))
+        if x.variant == "Null":
+            return VecM([])
+        return Opaque("pointer_bytes")
+
+    @model("StakeAddress::payload")
+    def _(eng, a, c):
+        x = deref(a[0]); bs = x.fields[0].items
+        v = "Script" if (bs[0] >> 4) == 15 else "Stake"
+        return ref_to_value(eng.mk_variant("StakePayload", v, [Agg("Hash", None, 0, [VecM(bs[1:29], "array")])]))
+
+    @model("FromStr::from_str@Address", "Address::from_bech32", "Address::from_hex")
+    def _(eng, a, c):
+        # textual address parsing: uninterpreted (Ok(opaque address) or Err)
+        if eng.choose(2, "address text parses") == 0:
+            return ok(eng.mk_variant("Address", "Shelley", [Agg("ShelleyAddress", None, 0, [VecM([0x60] + [0x11] * 28)])]))
+        return err(Opaque("address_error"))
+
     # ---- uninterpreted: encoders and digests (only wiring claims are made through these)
     @model("minicbor::to_vec", "to_vec", "ComputeHash::compute_hash", "ScriptData::hash", "OriginalHash::original_hash", "Hasher::hash", "Hash::to_vec")
     def _(eng, a, c):
